@@ -283,7 +283,7 @@ func (x *Exec) unop(fr *Frame, st *State, t *ssa.UnOp) string {
 		v := x.loadFrom(fr, st, t.X)
 		srt := x.vc.sortOf(t.Type())
 		v = x.vc.define("ld", srt, v)
-		if x.overflowOn || srt == "Slice" {
+		if (x.overflowOn && srt == "Int") || srt == "Slice" {
 			x.wf(st, t.Type(), v, false)
 		}
 		return v
